@@ -357,14 +357,16 @@ UpdateCM(p, M, batch, S, Dev, Md) ==
 UpdateC(p, M, batch, S, Dev) == UpdateCM(p, M, batch, S, Dev, StdMode)
 
 \* the contract (property C05): the concatenated returns denote Dense!SigC of the whole input on the domain they cover
+\* (cells from time 0; a signal may begin later: every sub-formula is evaluated on its own domain, Dense!SigD, and the
+\*  result is defined from the begin of the latest signal on - nothing may be emitted before)
 RefCellsFM(p, W, vs, S, Md) ==
-  LET d1 == DomEnd(W, vs) + Settle(p)
-      C == CellsOf(W, vs, 0, d1) IN
-  SigC(p, C, d1 + 1, S, Md)
+  LET d1 == DomEnd(W, vs) + Settle(p) IN
+  SigD(p, CellsOf(W, vs, 0, d1), [v \in vs |-> FirstT(W[v])], d1 + 1, S, Md)
 AgreesWithFM(emitted, p, W, vs, S, Md) ==
   emitted = <<>> \/
   LET R == RefCellsFM(p, W, vs, S, Md)
-      n == Len(R) IN
-  \A t \in FirstT(emitted)..LastT(emitted) : StepAt(emitted, t) = R[Clip(t + 1, n)]
+      n == Len(R.s) + R.o IN
+  /\ FirstT(emitted) >= R.o
+  /\ \A t \in FirstT(emitted)..LastT(emitted) : StepAt(emitted, t) = R.s[Clip(t + 1, n) - R.o]
 AgreesWithF(emitted, p, W, vs, S) == AgreesWithFM(emitted, p, W, vs, S, [sem |-> "standard", io |-> [v \in vs |-> "output"]])
 =============================================================================
